@@ -78,13 +78,13 @@ claim("C20",
       "Not decided: gotomic internals, logical races outside lock discipline, channel protocols; third-party objects (gorilla websocket.Conn) are contracts.")
 
 claim("C01",
-      "visibility taint rule on subscription queries, provenance in the writer's log branch, branch-condition non-interference and visit-once path rules on the trie walk, per-recipient path table of the fan-out, merge decision table (go/ssa)",
-      "Decides structural necessary conditions only: removed subscriptions never become recipients; recipients are resolved from the topic of the very log entry fanned out; the trie walk's descent decisions never depend on other entries' data and no child is acted upon twice in one step; each registered recipient gets exactly one PUBLISH (none if unregistered); an unsubscribe that overtakes its subscribe is kept. The core of the property — MQTT matching semantics over all topic × filter pairs — is NOT decided.",
-      "Not decided: which filters match which topics (parent-level '#', empty levels), order/history independence as values.")
+      "visibility taint rule on subscription queries, provenance in the writer's log branch, branch-condition non-interference and visit-once path rules on the trie walk, per-recipient path table of the fan-out, merge decision table, end-of-topic path rule for the '#' child, must-pass-through rule on subtree enumerations (go/ssa)",
+      "Decides structural necessary conditions only: removed subscriptions never become recipients; recipients are resolved from the topic of the very log entry fanned out; the trie walk's descent decisions never depend on other entries' data and no child is acted upon twice in one step; each registered recipient gets exactly one PUBLISH (none if unregistered); an unsubscribe that overtakes its subscribe is kept; where a topic ends at a trie node the subscribers under its '#' child are emitted too (a/# matches a); enumerations of the trie never stop at a node that holds a value. Apart from that clause, MQTT matching semantics over all topic × filter pairs — the core of the property — is NOT decided.",
+      "Not decided: which filters match which topics beyond the parent-level '#' clause (empty levels: 'a/' aliases 'a'), order/history independence as values.")
 claim("C06",
-      "per-recipient path table of the fan-out, decision table of the outbound in-flight callbacks (shared with C03), lockset on the pool, sort.Search predicate shape (go/ssa)",
-      "Decides only the ownership discipline around the pool: each identifier taken is bound to exactly one arming call and released if arming fails; every terminal path of every in-flight callback releases it exactly once, non-terminal paths never; the free list is touched only under the pool mutex; the pool's binary search predicate is monotone. The allocator's interval arithmetic (uniqueness, idempotent release, exhaustion, panic-freedom) is NOT decided.",
-      "Not decided: allocator semantics over Get/Put histories (value-level); see DESIGN.md §6.")
+      "per-recipient path table of the fan-out, decision table of the outbound in-flight callbacks (shared with C03), lockset on the pool, sort.Search predicate shape; for the allocator itself: bounds of every free-list access decided over the finite models of (list length, search position) consistent with the path guards, exhaustion protocol with three-valued agreement between the pool's sentinel and its callers' tests, contradiction check of guards against the binary search's postcondition (go/ssa)",
+      "Decides only the ownership discipline around the pool: each identifier taken is bound to exactly one arming call and released if arming fails; every terminal path of every in-flight callback releases it exactly once, non-terminal paths never; the free list is touched only under the pool mutex; the pool's binary search predicate is monotone; and, of the allocator itself, four necessary conditions: no free-list index or re-slice can be out of range for any list length or search position (no panic from the list), an empty list makes Get return a constant that every caller recognises before using the value (exhaustion is reported, not a duplicate), no guard contradicts the search postcondition (the already-free test looks at the interval that can contain the identifier), and no aliasing insert or bulk loss of intervals. Uniqueness and idempotent release over all Get/Put histories are NOT decided.",
+      "Not decided: allocator semantics over all Get/Put histories (value-level interval arithmetic beyond the four conditions); see DESIGN.md §6.")
 claim("C07",
       "scenario-row path table of the publish worker with event order, loop matcher and provenance in the subscribe arm, visibility taint on Topics.Get, provenance of the outgoing retain flag, non-interference of the retained trie, merge decision table (go/ssa)",
       "Decides on every path: retain∧empty clears, retain∧payload stores, ¬retain touches nothing, the flag is cleared between storing and distributing; after SUBACK every subscribed filter is looked up and each message found is sent to this session only with that filter's QoS, the loop ending early only with an error; cleared topics are never listed; the outgoing copy takes its flag from the source; the retained trie's descent ignores stored data; a clear that overtakes its publish is kept. Necessary conditions; matching semantics are not decided.",
